@@ -572,3 +572,89 @@ pub async fn c06_client_stream_cuts(certs: &Certs) -> std::result::Result<u64, S
     }
     Ok(n)
 }
+
+/// C11, library side: a refusal (error frame with a code) must be reported by `open()` as an error — whatever the
+/// code and whatever bytes the message carries. The refusing server is hand-written.
+pub async fn c11_library_reports_refusals(certs: &Certs) -> std::result::Result<(u64, Findings), String> {
+    use selium::prelude::*;
+    use selium::std::codecs::StringCodec;
+    use selium_server::quic::{load_root_store, read_certs, server_config, ConfigOptions};
+    use std::sync::atomic::{AtomicUsize, Ordering};
+    let roots = load_root_store(certs.server_ca()).map_err(|e| e.to_string())?;
+    let (chain, key) = read_certs(certs.server_cert(), certs.server_key()).map_err(|e| e.to_string())?;
+    let cfg = server_config(roots, chain, key, ConfigOptions { keylog: false, stateless_retry: false, max_idle_timeout: quinn::IdleTimeout::from(quinn::VarInt::from_u32(15_000)) }).map_err(|e| e.to_string())?;
+    let endpoint = quinn::Endpoint::server(cfg, "127.0.0.1:0".parse().unwrap()).map_err(|e| e.to_string())?;
+    let addr = endpoint.local_addr().map_err(|e| e.to_string())?;
+    // (code, message bytes)
+    let refusals: Arc<Vec<(u32, Vec<u8>)>> = Arc::new(vec![
+        (0, b"unknown".to_vec()),
+        (3, b"invalid topic".to_vec()),
+        (5, vec![]),
+        (7, vec![0xff, 0xfe, 0x80]),             // not UTF-8
+        (1, vec![0xc3]),                         // truncated UTF-8
+        (u32::MAX, b"code nobody knows".to_vec()),
+        (6, vec![b'x'; 70_000]),
+        (4, "é中💥\u{feff}".as_bytes().to_vec()),
+    ]);
+    let served = Arc::new(AtomicUsize::new(0));
+    let (s2, r2) = (served.clone(), refusals.clone());
+    let task = tokio::spawn(async move {
+        while let Some(connecting) = endpoint.accept().await {
+            let (served, refusals) = (s2.clone(), r2.clone());
+            tokio::spawn(async move {
+                let Ok(conn) = connecting.await else { return };
+                while let Ok((mut send, mut recv)) = conn.accept_bi().await {
+                    let n = served.fetch_add(1, Ordering::SeqCst);
+                    let refusals = refusals.clone();
+                    tokio::spawn(async move {
+                        let mut buf = vec![0u8; 4096];
+                        let _ = recv.read(&mut buf).await;
+                        let (code, msg) = &refusals[(n / 4) % refusals.len()];
+                        let _ = send.write_all(&enc_error(*code, msg)).await;
+                        let _ = send.finish().await;
+                        tokio::time::sleep(Duration::from_millis(200)).await;
+                    });
+                }
+            });
+        }
+    });
+    let bo = selium::keep_alive::BackoffStrategy::constant().with_max_attempts(1).with_step(Duration::from_millis(5));
+    let client = lib_client(&addr.to_string(), certs, Some(bo)).await.map_err(|e| format!("connect to the hand-written server: {e}"))?;
+    let mut findings = vec![];
+    let mut n = 0u64;
+    for (i, (code, msg)) in refusals.iter().enumerate() {
+        let what = format!("error frame with code {} and a {}-byte message ({})", code, msg.len(), if std::str::from_utf8(msg).is_ok() { "UTF-8" } else { "not UTF-8" });
+        let w = Duration::from_secs(6);
+        // the four roles, in this order (the server answers streams 4i .. 4i+3 with refusal i)
+        let r0 = tokio::time::timeout(w, client.publisher(&format!("/c11lib/pub{}", i)).with_encoder(StringCodec).open()).await.map(|r| r.map(|_| ()).map_err(|e| e.to_string()));
+        let r1 = tokio::time::timeout(w, client.subscriber(&format!("/c11lib/sub{}", i)).with_decoder(StringCodec).open()).await.map(|r| r.map(|_| ()).map_err(|e| e.to_string()));
+        let r2 = match client.requestor(&format!("/c11lib/req{}", i)).with_request_encoder(StringCodec).with_reply_decoder(StringCodec).with_request_timeout(500u64) {
+            Ok(b) => tokio::time::timeout(w, b.open()).await.map(|r| r.map(|_| ()).map_err(|e| e.to_string())),
+            Err(e) => Ok(Err(e.to_string())),
+        };
+        let r3 = tokio::time::timeout(
+            w,
+            client
+                .replier(&format!("/c11lib/rep{}", i))
+                .with_request_decoder(StringCodec)
+                .with_reply_encoder(StringCodec)
+                .with_handler(|s: String| async move { Ok::<String, std::convert::Infallible>(s) })
+                .open(),
+        )
+        .await
+        .map(|r| r.map(|_| ()).map_err(|e| e.to_string()));
+        for (role, r) in [("publisher", r0), ("subscriber", r1), ("requestor", r2), ("replier", r3)] {
+            n += 1;
+            match r {
+                Ok(Err(_)) => {}
+                Ok(Ok(())) => findings.push(("library-reports-refusal-as-success".to_string(), format!("{}: open() of a {} returned Ok although the server answered with an {}", role, role, what))),
+                Err(_) => findings.push(("library-hangs-on-refusal".to_string(), format!("{}: open() of a {} did not return within 6 s after the server answered with an {}", role, role, what))),
+            }
+        }
+    }
+    task.abort();
+    if served.load(Ordering::SeqCst) == 0 {
+        return Err("precondition not reached: the hand-written server saw no stream".into());
+    }
+    Ok((n, findings))
+}
